@@ -8,9 +8,11 @@ from __future__ import annotations
 import collections.abc as cabc
 import enum
 import typing
-from typing import Generic, List, TypeVar, Protocol, runtime_checkable
+from typing import Dict, Generic, List, TypeVar, Protocol, runtime_checkable
 
 T = TypeVar('T')
+KT = TypeVar('KT')
+VT = TypeVar('VT')
 
 READS: list = []          # (class name, method) appended on every item-reading call
 
@@ -278,6 +280,13 @@ class UGenList2(List[T]):
 
     def __repr__(self):
         return f'UGenList2({list.__repr__(self)})'
+
+
+class UGenDict(Dict[KT, VT]):
+    """User generic subclassing dict with two type parameters."""
+
+    def __repr__(self):
+        return f'UGenDict({dict.__repr__(self)})'
 
 
 class UGenPlain(Generic[T]):
